@@ -625,6 +625,8 @@ func (es *SearchEngineState) RETURN() {
 
 func (es *SearchEngineState) CHECKPOINT() {
 	checkpoint := es.Copy()
+	// a choice point must not see bindings made on the path that is abandoned later
+	checkpoint.environment = es.environment.Copy().Hashmap()
 	es.backtrack.Push(*checkpoint)
 }
 
